@@ -8,7 +8,7 @@ COQ_IMPORTS = "From Synnax Require Import Common.Base Core.Gorp Monitors.Mon_C17
 CASE_TYPE = "case_t"
 COUNTS = {"quick": 700, "thorough": 30000}
 SHARD = 90
-READY = False
+READY = True
 
 # False while the model copies the pinned upstream Get (a value listed twice returns its bucket twice);
 # True once fix F16 is in /repo. consts() re-derives it from the Go source on every run.
@@ -590,10 +590,34 @@ TRUSTED = ["hook x/go/gorp/export_verif.go (VerifDump: read-only copies of forwa
 ASSUMES = ["filters have at most 12 children per And/Or (Go's SortFunc is stable only up to 12 elements)",
            "no populate failure, no raw/prefix filters, no offset, no validators",
            "every write of a gorp transaction goes through the table's writers (staging)"]
-PARTIAL = None
+PARTIAL = ("over schedules the property does not hold when the commits of two transactions are crossed (F22, known "
+           "finding: U commits between T's kv commit and T's index flush and both wrote one key); the theorems "
+           "quantify over all histories whose commits are not crossed and C17_crossed_commit_refuted keeps the witness")
 TECHNIQUE = ("Coq proof (index invariants, binary-search correctness, delta merge spec, structural induction over filter "
              "trees, refinement of the index machinery to a table+write-set specification over all histories) + "
              "model/impl correspondence by vm_compute")
 DESIGN_REF = "DESIGN.md §8 C17"
-LEVEL_TEXT = ""
-LEVEL_NOTE = ""
+LEVEL_TEXT = ("Machine-checked Coq theorems (16, closed under the global context) over an executable Gallina copy of "
+              "LookupIndex/SortedIndex (forward/reverse maps, sort.Search bounds, put/remove), the per-transaction "
+              "delta (stage/unstage/merge/resolve/flush), the filter machinery (And/Or/Not, materializeFilters, "
+              "intersectKeys/unionKeys, resolveFilter, execKeys/execFilter/execOrdered), writers, tx Commit/Close with "
+              "cleanups, bulk populate and the index observer: index invariants inductive over all mutation "
+              "sequences; binary search = least index; merge specification; for ANY complete index answers every "
+              "filter tree executes to the scan's rows (structural induction); a system invariant over ALL histories "
+              "of begin/create/update/delete/query/commit/abort/reopen/replicated write from any pre-existing table; "
+              "refinement of the whole machinery to a table + write-set specification, giving index=scan for every "
+              "reader, isolation, commit visibility, abort leaves nothing, no residue, populate equivalence, ordered "
+              "pagination. The model is tied to /repo on every run: the real gorp.Table + indexes over memkv are driven "
+              "through generated histories, every query runs in indexed and full-scan form, and all outputs plus a full "
+              "dump of both indexes, the delta counts and every open transaction's view after every operation are "
+              "compared with the model inside Coq; a decidable monitor states the property against the specification "
+              "on the implementation's observations and yields the replay.")
+LEVEL_NOTE = ("Trusted: Coq kernel/vm_compute; hand-written model (tied by correspondence, not translation); harness + "
+              "read-only hook VerifDump; generator; Generated/Consts_C17.v (regex over index.go for the F21 fix). "
+              "Found by this check: F21 (a value listed twice in idx.Filter/Get answered twice; fixed 98c2e16, "
+              "C17_repeated_value_refuted keeps the witness) and F22 (crossed commit/flush of two transactions leaves "
+              "the index permanently out of step with the table; known finding, reproduced on every run from "
+              "corpus/C17/01_*; C17_crossed_commit_refuted). Not modelled: raw/prefix filters, offset, validators, "
+              "populate failure fallback, lazy membership maps, Go map iteration order (results compared as sorted "
+              "multisets; order inside equal sorted-index values adopted from the implementation), real goroutine "
+              "concurrency (the crossed commit is produced deterministically through the kv observer).")
